@@ -281,9 +281,15 @@ def tr_cfglife(run):
     cg_fns, touch, _, _, _ = callgraph(run)
     mine = [fn for (_, _, fn) in CFG_ITEMS + NTS_ITEMS] + [pf for (_, pf) in reg]
     callees = set()
-    for fn in mine:
-        if fn in cg_fns:
-            callees |= set(cg_fns[fn][1])
+    todo = [fn for fn in mine if fn in cg_fns]
+    seen_fn = set(todo)
+    while todo:               # direct callees, and what file-local static helpers (possibly inlined into the skeletons) call in turn
+        fn = todo.pop()
+        for c in cg_fns[fn][1]:
+            callees.add(c)
+            if c in cg_fns and c not in seen_fn and cg_fns[c][3].get("storageClass") == "static":
+                seen_fn.add(c)
+                todo.append(c)
     neutral = sorted(c for c in callees if c not in ACQ and c not in REL and c not in touch)
     out.append("Definition cfg_neutral : list string :=\n  [%s].\n" % "; ".join(q(c) for c in neutral))
     # who writes the record at all (whole library, raw AST)
@@ -322,6 +328,15 @@ ACQ = {"malloc", "calloc", "realloc", "strdup", "strndup", "fopen", "fdopen", "f
 REL = {"free", "fclose", "close", "closedir", "endutent", "closelog", "pclose", "munmap", "dlclose"}
 
 
+def const_object(vardecl):
+    """the object itself cannot be written: `const T x`, `const T x[n]`, `T *const p` (a `const char *p` is a writable pointer)"""
+    t = vardecl.get("type", {}).get("qualType", "")
+    t = re.sub(r"\[[^\]]*\]", "", t).strip()
+    if "*" in t:
+        return bool(re.search(r"\*\s*const\s*$", t))
+    return t.startswith("const ") or t.endswith(" const")
+
+
 def callgraph(run):
     """every function defined in the library sources: file, complete direct callee list, indirect-call flag, AST node, static locals;
     the set that transitively reaches an acquisition/release function; address-taken functions; a callees-first order"""
@@ -350,7 +365,7 @@ def callgraph(run):
 
             def walk(x):
                 if isinstance(x, dict):
-                    if x.get("kind") == "VarDecl" and x.get("storageClass") == "static":
+                    if x.get("kind") == "VarDecl" and x.get("storageClass") == "static" and not const_object(x):
                         statics.append(x.get("name"))
                     for c in x.get("inner", []) or []:
                         walk(c)
@@ -359,7 +374,7 @@ def callgraph(run):
         file_statics[rel] = statics_of(t)
         # objects with static storage defined here: file scope (not `extern` declarations) and function-local statics ("function:name")
         for n in t.get("inner", []):
-            if n.get("kind") == "VarDecl" and n.get("storageClass") != "extern" and not n.get("isImplicit") and n.get("name"):
+            if n.get("kind") == "VarDecl" and n.get("storageClass") != "extern" and not n.get("isImplicit") and n.get("name") and not const_object(n):
                 static_objs.add(n["name"])
         for (name, _, _, _, _, st) in res:
             for v in st:
